@@ -4,21 +4,52 @@ go 1.24.0
 
 require (
 	gitlab.com/aquachain/aquachain v0.0.0
-	golang.org/x/crypto v0.37.0
 	pgregory.net/rapid v1.3.0
-)
-
-require (
-	github.com/BurntSushi/toml v1.5.0 // indirect
-	github.com/btcsuite/btcd/btcec/v2 v2.3.5-0.20250307104530-c7191d2913c7 // indirect
-	github.com/decred/dcrd/dcrec/secp256k1/v4 v4.4.0 // indirect
-	github.com/go-stack/stack v1.8.1 // indirect
-	github.com/golang/snappy v1.0.0 // indirect
-	github.com/hashicorp/golang-lru v1.0.2 // indirect
-	github.com/joho/godotenv v1.5.1 // indirect
-	github.com/shopspring/decimal v1.4.0 // indirect
-	github.com/syndtr/goleveldb v1.0.0 // indirect
-	golang.org/x/sys v0.32.0 // indirect
+	github.com/BurntSushi/toml v1.5.0
+	github.com/aerth/tgun v0.2.0
+	github.com/btcsuite/btcd/btcec/v2 v2.3.5-0.20250307104530-c7191d2913c7
+	github.com/cespare/cp v1.1.1
+	github.com/davecgh/go-spew v1.1.1
+	github.com/deckarep/golang-set v1.8.0
+	github.com/decred/dcrd/dcrec/secp256k1/v4 v4.4.0
+	github.com/edsrzf/mmap-go v1.2.0
+	github.com/fatih/color v1.18.0
+	github.com/go-stack/stack v1.8.1
+	github.com/golang/snappy v1.0.0
+	github.com/hashicorp/golang-lru v1.0.2
+	github.com/huin/goupnp v1.3.0
+	github.com/jackpal/go-nat-pmp v1.0.2
+	github.com/joho/godotenv v1.5.1
+	github.com/mattn/go-colorable v0.1.14
+	github.com/pborman/uuid v1.2.1
+	github.com/peterh/liner v1.2.2
+	github.com/robertkrimen/otto v0.5.1
+	github.com/rs/cors v1.11.1
+	github.com/shopspring/decimal v1.4.0
+	github.com/stretchr/testify v1.10.0
+	github.com/syndtr/goleveldb v1.0.0
+	golang.org/x/crypto v0.37.0
+	golang.org/x/net v0.39.0
+	golang.org/x/sys v0.32.0
+	golang.org/x/tools v0.32.0
+	gopkg.in/check.v1 v1.0.0-20201130134442-10cb98267c6c
+	gopkg.in/natefinch/npipe.v2 v2.0.0-20160621034901-c1b8fa8bdcce
+	gopkg.in/olebedev/go-duktape.v3 v3.0.0-20210326210528-650f7c854440
+	github.com/kr/pretty v0.3.1
+	github.com/rogpeppe/go-internal v1.14.1
+	github.com/google/uuid v1.6.0
+	github.com/kr/text v0.2.0
+	github.com/mattn/go-isatty v0.0.20
+	github.com/mattn/go-runewidth v0.0.16
+	github.com/pmezard/go-difflib v1.0.0
+	github.com/rivo/uniseg v0.4.7
+	github.com/urfave/cli/v3 v3.1.1
+	golang.org/x/mod v0.24.0
+	golang.org/x/sync v0.13.0
+	golang.org/x/text v0.24.0
+	gopkg.in/sourcemap.v1 v1.0.5
+	gopkg.in/yaml.v2 v2.4.0
+	gopkg.in/yaml.v3 v3.0.1
 )
 
 replace gitlab.com/aquachain/aquachain => /repo
